@@ -11,7 +11,7 @@ from csverif.astutil import (
     assignments_to, body_walk, compare_parts, const_eval, dotted, fn_calls, is_const, kwarg, NotConst, param_annotation,
     param_defaults, params, src, statements,
 )
-from csverif.q import FuncView, calls_to, guarded_by, origin, reaching_origins
+from csverif.q import FuncView, calls_to, guarded_by, origin, reaching_origins  # noqa: F401
 
 
 def _c(node):
@@ -176,6 +176,33 @@ def r3(ctx):
         ok = len(mk) == 1 and mk[0].args and dotted(mk[0].args[0]) == params(f.node)[0]
         ctx.ob("R3", "AGREE", f, "io.BytesIO(program)", ok, "parser reads the whole program from its start" if ok else "parser stream is not io.BytesIO(<program parameter>)")
     ctx.rep.count("be32_reads", n, floor=7)
+    # loop exits: a program parser may stop only on what it read as the *opcode* of this iteration (short/empty read
+    # or opcode 0) - stopping on an argument value (e.g. an empty argument) truncates a well-formed program
+    for fq in ("beacon.parse_transform_binary", "beacon.parse_recover_binary", "beacon.parse_execute_list", "beacon.parse_gargle"):
+        f = ctx.repo.func(fq)
+        fv = FuncView.of(f.node)
+        for w in [s2 for s2 in statements(f.node) if isinstance(s2, ast.While)]:
+            first = w.body[0] if w.body else None
+            op = dotted(first.targets[0]) if isinstance(first, ast.Assign) and isinstance(first.value, ast.Call) and isinstance(first.value.func, ast.Attribute) and first.value.func.attr == "read" else None
+            derived = {op} if op else set()
+            changed = True
+            while changed:
+                changed = False
+                for s2 in ast.walk(w):
+                    if isinstance(s2, ast.Assign) and dotted(s2.targets[0]) and dotted(s2.targets[0]) not in derived:
+                        names = {x.id for x in ast.walk(s2.value) if isinstance(x, ast.Name)}
+                        locals_used = {x for x in names if assignments_to(f.node, x)}
+                        reads = any(isinstance(c, ast.Call) and isinstance(c.func, ast.Attribute) and c.func.attr == "read" for c in ast.walk(s2.value))
+                        if locals_used and locals_used <= derived and not reads:
+                            derived.add(dotted(s2.targets[0]))
+                            changed = True
+            for b in [s2 for s2 in ast.walk(w) if isinstance(s2, (ast.Break, ast.Return)) and fv.enclosing(s2, (ast.While, ast.For)) is w]:
+                test = fv.enclosing(b, (ast.If,))
+                names = {x.id for x in ast.walk(test.test) if isinstance(x, ast.Name) and assignments_to(f.node, x.id)} if test is not None else {"<unconditional>"}
+                ok = op is not None and bool(names) and names <= derived
+                ctx.ob("R3", "LOOP", f, f"loop exit under {sorted(names)}", ok,
+                       f"parser stops on the opcode read of the iteration ({op} and values derived from it: {sorted(derived)})" if ok else
+                       f"parser can stop on {sorted(names - derived)} - not the opcode read {op}: a well-formed program is truncated", b)
 
 
 def r4(ctx):
